@@ -576,6 +576,105 @@ fn run_tamper(c: &TamperCase) -> Outcome {
     o
 }
 
+#[derive(Clone, Debug, Hash, Serialize, Deserialize)]
+pub struct AlgCase {
+    pub v6: bool,
+    /// first seed of a block of 25 consecutive key-generation seeds
+    pub first_seed: u64,
+}
+
+/// Every key algorithm x many generated keys (so that secret fields with leading zero octets,
+/// stored in shortened form, occur for each of them): lock, serialise, parse, unlock.
+fn run_algs(c: &AlgCase) -> Outcome {
+    use crate::props::c07::{Alg, Case as KCase, Shape, Sub};
+    let mut o = Outcome::ok("restored");
+    let mut states = Vec::new();
+    let mut transitions = 0u64;
+    let sign_algs = [Alg::EcdsaP256, Alg::EcdsaP384, Alg::EcdsaP521, Alg::EcdsaK256, Alg::Ed448, Alg::Ed25519Legacy];
+    let enc_algs = [Alg::EcdhP256, Alg::EcdhP384, Alg::EcdhP521, Alg::EcdhCv25519, Alg::X25519, Alg::X448];
+    for seed in c.first_seed..c.first_seed + 25 {
+        let mut subs: Vec<Sub> = Vec::new();
+        for a in sign_algs {
+            if c.v6 && a == Alg::Ed25519Legacy {
+                continue;
+            }
+            subs.push(Sub { alg: a, sign: true, encrypt: false, lock: 0, caps: 0 });
+        }
+        for a in enc_algs {
+            if c.v6 && a == Alg::EcdhCv25519 {
+                continue;
+            }
+            subs.push(Sub { alg: a, sign: false, encrypt: true, lock: 0, caps: 0 });
+        }
+        let shape = Shape { v6: c.v6, primary: Alg::Ed25519, subs, lock: 0, uids: 1, prefs: false, subkey_v6: None };
+        let cert = match crate::props::c07::build(&KCase { shape, seed, force_draw: None, mode: 0 }) {
+            Ok(Ok(k)) => k,
+            other => {
+                o.push("C08:algs:key-generation-failed", format!("{c:?} seed {seed}: {:?}", other.map(|r| r.map(|_| ()))));
+                continue;
+            }
+        };
+        let mut keys: Vec<SK> = vec![SK::P(cert.primary_key.clone())];
+        keys.extend(cert.secret_subkeys.iter().map(|s| SK::S(s.key.clone())));
+        for (ki, k) in keys.iter().enumerate() {
+            let alg = match k {
+                SK::P(k) => format!("{:?}", pgp::types::KeyDetails::algorithm(k)),
+                SK::S(k) => format!("{:?} subkey {}", pgp::types::KeyDetails::algorithm(k), ki),
+            };
+            let Ok(original) = k.unlock(b"") else {
+                o.push("C08:algs:generated-key-not-plain", format!("{c:?} seed {seed} {alg}"));
+                continue;
+            };
+            for (qi, p) in [&PARAM_SET[0], &PARAM_SET[4]].into_iter().enumerate() {
+                let mut k2 = k.clone();
+                transitions += 1;
+                if let Err(e) = k2.set_password(b"right", lib_params(p, qi as u8)) {
+                    o.push("C08:algs:lock-refused", format!("{c:?} seed {seed} {alg} usage {}: {e}", p.usage));
+                    continue;
+                }
+                // in memory, and after serialise + parse
+                let body = k2.body();
+                let reparsed = SK::parse(k.tag(), &body);
+                states.push(h64(&body));
+                for (how, kk) in [("in memory", Ok(k2.clone())), ("after serialise+parse", reparsed)] {
+                    let kk = match kk {
+                        Ok(kk) => kk,
+                        Err(e) => {
+                            o.push("C08:algs:own-serialisation-does-not-parse", format!("{c:?} seed {seed} {alg} usage {}: {e}", p.usage));
+                            continue;
+                        }
+                    };
+                    transitions += 2;
+                    match kk.unlock(b"right") {
+                        Ok(m) => {
+                            if m != original {
+                                o.push("C08:algs:right-password-yields-other-material", format!("{c:?} seed {seed} {alg} usage {} {how}", p.usage));
+                            }
+                        }
+                        Err(e) => o.push("C08:algs:right-password-does-not-unlock", format!("{c:?} seed {seed} {alg} usage {} {how}: {e}", p.usage)),
+                    }
+                    if kk.unlock(b"wrong").is_ok() {
+                        o.push("C08:algs:wrong-password-unlocks", format!("{c:?} seed {seed} {alg} usage {} {how}", p.usage));
+                    }
+                    let mut k3 = kk.clone();
+                    match k3.remove_password(b"right") {
+                        Ok(()) => {
+                            if k3.body() != k.body() {
+                                o.push("C08:algs:remove_password-does-not-restore-the-packet", format!("{c:?} seed {seed} {alg} usage {} {how}", p.usage));
+                            }
+                        }
+                        Err(e) => o.push("C08:algs:remove_password-fails-with-right-password", format!("{c:?} seed {seed} {alg} usage {} {how}: {e}", p.usage)),
+                    }
+                }
+            }
+        }
+    }
+    o.transitions = transitions;
+    o.evals = transitions;
+    o.states = states;
+    o
+}
+
 pub fn check(ctx: &Ctx) {
     // the former thorough bounds take seconds: they are the quick tier now; `deep` = thorough
     let quick = false;
@@ -663,11 +762,25 @@ pub fn check(ctx: &Ctx) {
         tc.into_par_iter(),
         run_tamper,
     );
+    let mut ac = Vec::new();
+    for v6 in [false, true] {
+        for block in 0..if deep { 40u64 } else { 8 } {
+            ac.push(AlgCase { v6, first_seed: 7000 + block * 25 });
+        }
+    }
+    ctx.run_space(
+        "every_algorithm_x_generated_keys",
+        true,
+        "200 (thorough 1000) generated certificates per key version, each with an Ed25519 primary and one subkey of every other algorithm (ECDSA P-256/P-384/P-521/secp256k1, Ed448, EdDSA-legacy, ECDH P-256/P-384/P-521/Curve25519, X25519, X448), so that secret scalars with leading zero octets occur for every field: each key x {usage 254 CFB, usage 253 AEAD}: lock, then in memory and after serialise + parse: the password returns exactly the original material, another password fails, remove_password restores the original packet",
+        ac.into_par_iter(),
+        run_algs,
+    );
 }
 
 pub fn replay(space: &str, case: &Value) -> Option<Outcome> {
     match space {
         "lock_unlock_operation_sequences" => replay_as(case, run_ops),
+        "every_algorithm_x_generated_keys" => replay_as(case, run_algs),
         "packets_from_the_wire" => replay_as(case, run_wire),
         "tampered_locked_keys" => replay_as(case, run_tamper),
         _ => None,
